@@ -142,11 +142,14 @@ class ThreadBuilder:
         self.nodes = {}
         self.next_id = 0
         self.memo = {}
+        self.cur_item = 0
+        self.item_of = {}        # node id -> index of the program item it belongs to
 
     def new_node(self, op, succ=None):
         nid = self.next_id
         self.next_id += 1
         self.nodes[nid] = dict(op=op, succ=succ or {})
+        self.item_of[nid] = self.cur_item
         return nid
 
     def func_automaton(self, fname, args, on_return):
@@ -185,6 +188,14 @@ class ThreadBuilder:
         return self.from_(items, 0, frozenset(), frozenset())
 
     def from_(self, items, i, done, started):
+        saved = self.cur_item
+        self.cur_item = i
+        try:
+            return self._from(items, i, done, started)
+        finally:
+            self.cur_item = saved
+
+    def _from(self, items, i, done, started):
         """done: awaiters whose wait completed or was dropped; started: awaiters polled at least once"""
         key = (i, done, started)
         if key in self.memo:
@@ -266,7 +277,7 @@ def build_scenario(cfg, find, programs):
     for t, items in enumerate(programs):
         tb = ThreadBuilder(cfg, find, opids)
         e = tb.build(t, items)
-        threads.append(dict(nodes=tb.nodes, entry=e))
+        threads.append(dict(nodes=tb.nodes, entry=e, item_of=tb.item_of))
         lp, loops = longest_path(tb.nodes, e)
         k += lp + 2 * min(loops, 2)
     awaiters = sorted({it[1] for items in programs for it in items if isinstance(it, tuple)})
